@@ -110,6 +110,7 @@ def _srchash(dirs):
 def build_go():
     """build trans (translator) and implrun (harness, -tags verif) against REPO's working tree"""
     hdir = os.path.join(VERIF, "harness")
+    pregen_harness(hdir)
     key = repo_tree_hash() + ":" + _srchash([hdir]) + ":" + REPO
     if _read(_stamp("go")) == key and os.path.exists(os.path.join(BUILD, "implrun")):
         return
@@ -150,7 +151,10 @@ def regen():
     # O ties: lib/obs_<name>.py with observe(gen_dir) runs the real code (build/implrun) over a
     # finite domain and writes the observed table(s) into coq/Gen (only when changed)
     import importlib
-    for fn in sorted(os.listdir(os.path.join(VERIF, "lib"))):
+    libdir = os.path.join(VERIF, "lib")
+    if libdir not in sys.path:
+        sys.path.insert(0, libdir)
+    for fn in sorted(os.listdir(libdir)):
         if fn.startswith("obs_") and fn.endswith(".py"):
             mod = importlib.import_module(fn[:-3])
             try:
@@ -617,3 +621,15 @@ def main_for(run):
         print("BUILD-ERROR: %s" % str(e)[:3000])
         sys.exit(2)
     sys.exit(rc)
+
+
+def pregen_harness(hdir):
+    """harness sources that must follow the repository at COMPILE time (lib/pregen_<name>.py: pregen(repo, harness_dir)),
+    regenerated before the Go build and written only when they change"""
+    import importlib
+    libdir = os.path.join(VERIF, "lib")
+    if libdir not in sys.path:
+        sys.path.insert(0, libdir)
+    for fn in sorted(os.listdir(libdir)):
+        if fn.startswith("pregen_") and fn.endswith(".py"):
+            importlib.import_module(fn[:-3]).pregen(REPO, hdir)
